@@ -23,7 +23,7 @@ func init() {
 				"every call is compared with a plain Go reference (int32 / map / slice / JSON tree with container identities)",
 			Assume: []string{assumeE1, assumeInstr, "reference models in h/w/c03.go"}}
 		if tier == "quick" {
-			p.BudgetS = 240
+			p.BudgetS = 600
 			p.Runs = []Run{
 				{Name: "counter-d4", Check: "C03", Params: wp{Type: "counter", Alpha: "rich"}, Depth: 4},
 				{Name: "map-d4", Check: "C03", Params: wp{Type: "map", Alpha: "rich"}, Depth: 4},
